@@ -29,6 +29,81 @@ EXPLANATION = __doc__
 SINK_METHODS = ('byte', 'word', 'dword', 'qword', 'vec')
 INTERIOR = ('core::cell::', 'core::sync::atomic', 'std::sync', 'std::cell', 'alloc::rc::Rc', 'alloc::sync::Arc')
 
+def in_crate_sinks(f, rep, X=None, rule='sink-agreement', floor=True):
+    """every in-crate AmlSink must treat each of the five entry points as delivery of the same bytes, in order.
+    Three kinds of sink state are decided: a byte store (the bytes are appended), a byte-sum accumulator
+    (the state advances by the sum of the bytes mod 256) and a byte counter (the state advances by the
+    number of bytes); Sdt is the byte store that also maintains its header."""
+    if X is None: X = {'word': (A('x16', 0, 0xffff), 2), 'dword': (A('x32', 0, 0xffffffff), 4), 'qword': (A('x64', 0, (1 << 64) - 1), 8)}
+    from evalr import canon_bytes
+    sinks = [s for (t, s) in f.trait_impls if t == 'AmlSink']
+    if floor: rep.floor('in-crate sinks', len(sinks), 4)
+    for s in sinks:
+        ov = f.trait_impls[('AmlSink', s)]
+        rep.ob(rule, '%s implements byte' % s, 'byte' in ov, 'sink %s lacks the mandatory method' % s)
+        kinds = {}
+        for meth in SINK_METHODS:
+            I = new_interp(f, abstract=())
+            sv = I.sym_value(norm_ty(s), 'self')
+            if meth == 'vec':
+                arg = RefV(Cell(SeqV('u8', [('raw', ('a', 'v'), ('len', ('a', 'v')))], name='v'))); want = [('raw', ('a', 'v'), ('len', ('a', 'v')))]
+            elif meth == 'byte': arg = A('b', 0, 255); want = [('int', arg, 1)]
+            else: arg, w = X[meth]; want = [('int', arg, w)]
+            sym.CTX = I.st.ranges
+            I.sink_call(meth, [RefV(Cell(sv), True), arg], {'sp': None}); sym.CTX = {}
+            for c in I.calls_seen: rep.analysed.add(c)
+            subj = '%s as AmlSink::%s' % (s, meth)
+            if s == 'sdt::Sdt' and meth != 'byte':
+                rep.ob(rule, subj, meth not in ov, 'Sdt overrides %s; only its byte-wise default is modelled' % meth); continue
+            if I.tops:
+                rep.undecided(rule, subj, I.tops, None); continue
+            if isinstance(sv, SeqV):
+                got = sv.segs[1:]
+                ok = norm_segs(got) == want
+                rep.ob(rule, subj, ok, '%s stores %s for %s' % (s, show_segs(got), show_segs(want)), detail={'appended': show_segs(got)})
+            elif s == 'sdt::Sdt':
+                if meth == 'byte':
+                    d_ = sv.fields['data']
+                    ok = d_.segs[1:] == [('int', ZERO, 1)] and any(st_[0] != C(9) and isinstance(st_[0], tuple) and st_[0][0] == 'range' and st_[1] == (('int', arg, 1),) for st_ in d_.stores)
+                    rep.ob(rule, subj, ok, 'Sdt::byte does not append the byte', detail={'stores': len(d_.stores)})
+                else:
+                    rep.ob(rule, subj, meth not in ov, 'Sdt overrides %s; only its byte-wise default is modelled' % meth)
+            elif isinstance(sv, StructV):
+                fresh = I.sym_value(norm_ty(s), 'self')
+                stores = [k for k, v in sv.fields.items() if isinstance(v, SeqV) and v.is_bytes()]
+                ints = [k for k, v in sv.fields.items() if is_term(v)]
+                other = [k for k in sv.fields if k not in stores and k not in ints]
+                changed_ints = [k for k in ints if sv.fields[k] != fresh.fields[k]]
+                grown = [k for k in stores if sv.fields[k].segs[1:] or sv.fields[k].stores]
+                if other and any(repr(sv.fields[k]) != repr(fresh.fields[k]) for k in other):
+                    rep.undecided(rule, subj, [('sink state of a kind that is not modelled: %s' % other, None)], None); continue
+                if len(grown) == 1 and not changed_ints:
+                    # byte store: the bytes are appended in order, nothing else moves
+                    got = sv.fields[grown[0]].segs[1:]
+                    ok = norm_segs(got) == want and not sv.fields[grown[0]].stores
+                    kinds[meth] = 'store'
+                    rep.ob(rule, subj, ok, '%s stores %s for %s' % (s, show_segs(got), show_segs(want)), detail={'appended': show_segs(got)})
+                elif len(changed_ints) == 1 and not grown:
+                    k = changed_ints[0]
+                    got = sv.fields[k]; old = ('a', 'self.' + k)
+                    nbytes = seqlen(want)
+                    as_sum = equal(canon_bytes(wrap(got, 256)), canon_bytes(wrap(add(old, S_of(want)), 256)))[0] and rng(got)[1] <= 255
+                    as_count = equal(got, add(old, nbytes))[0]
+                    kinds[meth] = 'sum' if as_sum else 'count' if as_count else None
+                    rep.ob(rule, subj, as_sum or as_count,
+                           '%s advances its state `%s` to %s for %s bytes delivered through %s; a byte-sum accumulator advances by the sum of the bytes, a byte counter by their number (%s)'
+                           % (s, k, show(got), show(nbytes), meth, show(add(old, nbytes))), detail={'state_after': show(got), 'bytes_delivered': show(nbytes)})
+                elif not grown and not changed_ints:
+                    rep.ob(rule, subj, False, '%s ignores the bytes delivered through %s' % (s, meth))
+                else:
+                    rep.undecided(rule, subj, [('sink %s changes several parts of its state (%s): no model' % (s, grown + changed_ints), None)], None)
+            else:
+                rep.undecided(rule, subj, [('sink of an unmodelled kind: %r' % (sv,), None)], None)
+        if kinds:
+            ks = set(kinds.values()) - {None}
+            rep.ob(rule, '%s: one kind of state' % s, len(ks) <= 1, 'the entry points of %s disagree on what the sink accumulates: %s' % (s, kinds))
+
+
 def run(ctx, rep):
     _run(ctx, rep)
     if ctx.tier == 'thorough':
@@ -108,44 +183,7 @@ def _run(ctx, rep):
         rep.ob('sink-agreement', 'default AmlSink::' + meth, ok, 'default %s delivers %s through %s; specified: the little-endian bytes in order' % (meth, show_segs(sink.segs), sorted(set(sink.calls))),
                detail={'delivered': show_segs(norm_segs(sink.segs)), 'via': sorted(set(sink.calls))})
     # (b) in-crate sinks: each override appends exactly the bytes given, in order
-    sinks = [s for (t, s) in f.trait_impls if t == 'AmlSink']
-    rep.floor('in-crate sinks', len(sinks), 4)
-    for s in sinks:
-        ov = f.trait_impls[('AmlSink', s)]
-        rep.ob('sink-agreement', '%s implements byte' % s, 'byte' in ov, 'sink %s lacks the mandatory method' % s)
-        for meth in SINK_METHODS:
-            I = new_interp(f, abstract=())
-            sv = I.sym_value(norm_ty(s), 'self')
-            if meth == 'vec':
-                arg = RefV(Cell(SeqV('u8', [('raw', ('a', 'v'), ('len', ('a', 'v')))], name='v'))); want = [('raw', ('a', 'v'), ('len', ('a', 'v')))]
-            elif meth == 'byte': arg = A('b', 0, 255); want = [('int', arg, 1)]
-            else: arg, w = X[meth]; want = [('int', arg, w)]
-            sym.CTX = I.st.ranges
-            I.sink_call(meth, [RefV(Cell(sv), True), arg], {'sp': None}); sym.CTX = {}
-            for c in I.calls_seen: rep.analysed.add(c)
-            subj = '%s as AmlSink::%s' % (s, meth)
-            if isinstance(sv, SeqV):
-                got = sv.segs[1:]
-                ok = not I.tops and norm_segs(got) == want
-                rep.ob('sink-agreement', subj, ok, '%s stores %s for %s' % (s, show_segs(got), show_segs(want)), detail={'appended': show_segs(got)})
-            elif isinstance(sv, StructV) and isinstance(sv.fields.get('data'), SeqV) and s != 'sdt::Sdt':
-                got = sv.fields['data'].segs[1:]
-                ok = not I.tops and norm_segs(got) == want
-                rep.ob('sink-agreement', subj, ok, '%s stores %s for %s' % (s, show_segs(got), show_segs(want)), detail={'appended': show_segs(got)})
-            elif s == 'Checksum':
-                from evalr import canon_bytes
-                got = sv.fields['value']; exp = wrap(add(('a', 'self.value'), S_of(want)), 256)
-                ok = not I.tops and is_term(got) and equal(canon_bytes(got), canon_bytes(exp))[0]
-                rep.ob('sink-agreement', subj, ok, 'Checksum accumulates %s, specified %s' % (show(got) if is_term(got) else got, show(exp)))
-            elif s == 'sdt::Sdt':
-                if meth == 'byte':
-                    d_ = sv.fields['data']
-                    ok = not I.tops and d_.segs[1:] == [('int', ZERO, 1)] and any(st_[0] != C(9) and isinstance(st_[0], tuple) and st_[0][0] == 'range' and st_[1] == (('int', arg, 1),) for st_ in d_.stores)
-                    rep.ob('sink-agreement', subj, ok, 'Sdt::byte does not append the byte', detail={'stores': len(d_.stores)})
-                else:
-                    rep.ob('sink-agreement', subj, meth not in ov, 'Sdt overrides %s; only its byte-wise default is modelled' % meth)
-            else:
-                rep.ob('sink-agreement', subj, False, 'unknown kind of in-crate sink %s: add a model' % s)
+    in_crate_sinks(f, rep, X)
 
     # ---------------- raw form = serialised form
     both = []
